@@ -12,6 +12,8 @@ for _f in sorted(glob.glob(os.path.join(HERE, "vlib", "props_d", "*.py"))) if no
     PROPS.update(_m.PROPS)
 
 ALL = ["C%02d" % i for i in range(1, 21)]
+for _x in (os.environ.get("VERIF_EXCLUDE") or "").split(","):
+    PROPS.pop(_x.strip(), None)
 checks = []
 for pid in ALL:
     if pid not in PROPS:
